@@ -11,6 +11,8 @@ Recorded (one NDJSON file per trace specification):
   timestamps.ndjson -- Trace_Timestamps: every format_datetime call (civil fields, precision, output, write-read-write)
   confidence.ndjson -- Trace_Confidence: every call of a confidence-scale function
   canonjson.ndjson  -- Trace_CanonJson: every canonicalize call on a JSON value (tagged), with the output code units
+  versioning.ndjson -- Trace_Versioning: every new_version / revoke call on a versionable object or dictionary, projected onto the object record of
+                       spec/Versioning.tla (changed properties in slots, everything else as one digest, instants compressed order- and millisecond-preserving)
 """
 import datetime as dt
 import functools
@@ -304,6 +306,171 @@ def canon_recorder(orig, a, k):
     return out
 
 
+# ------------------------------------------------------------------------------------------------ Versioning (C05)
+def compress_times(values):
+    """order-preserving map of microsecond instants into TLC's integer range: gaps above two seconds shrink to two seconds plus their
+    sub-millisecond part, so that every difference below two seconds and every residue modulo one millisecond is kept"""
+    out, prev, cur = {}, None, 0
+    for v in sorted(set(values)):
+        if prev is None:
+            cur = v % 1000
+        else:
+            g = v - prev
+            cur += g if g <= 2000000 else 2000000 + g % 1000
+        out[v] = cur
+        prev = v
+    return out
+
+
+def versioning_recorder(kind):
+    def rec(orig, a, k):
+        info = None
+        try:
+            with Busy():
+                info = versioning_pre(kind, a, k)
+        except Exception:  # noqa
+            STATE["errors"] += 1
+            if os.environ.get("STIX2_VERIF_TRACE_DEBUG"):
+                import traceback
+                traceback.print_exc()
+        ok, exc, res = True, "none", None
+        try:
+            res = orig(*a, **k)
+            return res
+        except BaseException as e:  # noqa
+            ok, exc = False, type(e).__name__
+            raise
+        finally:
+            if info is not None:
+                try:
+                    with Busy():
+                        line = versioning_post(kind, info, res, ok, exc)
+                        if line is not None:
+                            emit("versioning", kind, line)
+                except Exception:  # noqa
+                    STATE["errors"] += 1
+                    if os.environ.get("STIX2_VERIF_TRACE_DEBUG"):
+                        import traceback
+                        traceback.print_exc()
+    return rec
+
+
+def _us(value):
+    """microseconds since 2020-01-01T00:00:00Z of a timestamp in any form the library takes"""
+    import stix2.utils as U
+    d = U.parse_into_datetime(value)
+    if d.tzinfo is not None:
+        d = d.astimezone(dt.timezone.utc).replace(tzinfo=None)
+    delta = d - dt.datetime(2020, 1, 1)
+    return (delta.days * 86400 + delta.seconds) * 1000000 + delta.microseconds
+
+
+def versioning_pre(kind, a, k):
+    """projection of the argument of new_version / revoke onto the object record of spec/Versioning.tla; None when the call is outside the model
+    (observables, types without versioning properties, dictionaries without `created`, more changed properties than the projection has slots)"""
+    import stix2.base
+    import stix2.utils as U
+    from harness import impl_versioning as IV
+    from harness import objects as O
+    outside = lambda why: STATE["counts"].__setitem__(("versioning", "outside_model:" + why), STATE["counts"].get(("versioning", "outside_model:" + why), 0) + 1)  # noqa
+    data = a[0] if a else k.get("data")
+    kw = {n: v for n, v in k.items() if n not in ("data", "allow_custom")}
+    if isinstance(data, stix2.base._STIXBase):
+        if isinstance(data, stix2.base._Observable) or not {"created", "modified", "revoked"} <= set(data._properties):
+            return outside("observable_or_unversionable")
+        if "created" not in data:
+            return outside("object_without_created")
+        okind, v = "obj", "2.1" if "spec_version" in data._properties else "2.0"
+        required = {n for n, p in data._properties.items() if getattr(p, "required", False)}
+    elif type(data) is dict:
+        if "created" not in data or "type" not in data:
+            return outside("dictionary_without_created")
+        try:
+            v = U.detect_spec_version(data)
+        except Exception:  # noqa
+            return outside("dictionary_version")
+        if U.is_sco(data, v):
+            return outside("observable_or_unversionable")
+        okind, required = "dict", set()
+    else:
+        return outside("not_an_object")
+    if "revoked" in kw:
+        return outside("explicit_revoked")          # revoke() itself arrives here a second time, through its inner call
+    names = sorted(n for n in kw if n != "modified")
+    unmod = [n for n in names if n in ("created", "created_by_ref", "id", "type")]
+    req = [n for n in names if n not in unmod and n in required]
+    opt = [n for n in names if n not in unmod and n not in required]
+    if len(req) > 3 or len(opt) > 6:
+        return outside("too_many_changes")
+    slot = dict([(n, "req%d" % (i + 1)) for i, n in enumerate(req)] + [(n, "opt%d" % (i + 1)) for i, n in enumerate(opt)])
+    plain = lambda x: json.dumps(O.plain(x), sort_keys=True, default=str)  # noqa
+    pre_props = {s: "a" for s in ["req1", "req2", "req3"]}
+    pre_props.update({s: "absent" for s in ["opt1", "opt2", "opt3", "opt4", "opt5", "opt6"]})
+    pre_props["rest"] = "a"
+    ch = {}
+    for n, s in slot.items():
+        pre_props[s] = "a" if n in data else "absent"
+        ch[s] = "none" if kw[n] is None else "a" if n in data and plain(kw[n]) == plain(data[n]) else "b"
+    for n in unmod:
+        ch[n] = "none" if kw[n] is None else "x"
+    times = {"created": _us(data["created"]), "modified": _us(data.get("modified") or data["created"])}
+    if kind == "new" and "modified" in kw:
+        try:
+            times["m"] = _us(kw["modified"])
+        except Exception:  # noqa
+            return outside("unparsable_modified")
+    rest = lambda o: plain({n: x for n, x in dict(o).items() if n not in slot and n not in ("modified", "revoked")})  # noqa
+    times["ser_pre"] = _ser_us(data, v)
+    return {"data": data, "v": v, "kind": okind, "slot": slot, "kw": kw, "ch": ch, "pre_props": pre_props, "times": times, "hasmod": "modified" in data,
+            "revoked": bool(data.get("revoked")), "rest": rest(data), "snap": IV.snapshot(data), "plain": plain, "restf": rest,
+            "ident": plain([data.get("type"), data.get("id"), data.get("created_by_ref")])}
+
+
+def _ser_us(obj, v):
+    """the modified instant as a reader of the serialized object sees it"""
+    from harness import objects as O
+    if hasattr(obj, "serialize"):
+        d = json.loads(obj.serialize())
+        return _us(d.get("modified") or d["created"])
+    value = obj.get("modified") or obj.get("created")
+    carrier = O.module(v).Campaign(name="carrier", created=value, modified=value)
+    return _us(json.loads(carrier.serialize())["modified"])
+
+
+def versioning_post(kind, info, res, ok, exc):
+    import stix2.base
+    from harness import impl_versioning as IV
+    data, v, slot, plain = info["data"], info["v"], info["slot"], info["plain"]
+    times = dict(info["times"])
+    post_props = dict(info["pre_props"])
+    if ok:
+        pkind = "obj" if isinstance(res, stix2.base._STIXBase) and type(res) is type(data) else "dict" if type(res) is dict and type(data) is dict else "other"
+        times["post_created"] = _us(res["created"])
+        times["post_modified"] = _us(res["modified"])
+        times["ser_post"] = _ser_us(res, v)
+        for n, s in slot.items():
+            post_props[s] = "absent" if n not in res else "a" if n in data and plain(res[n]) == plain(data[n]) else "b"
+        post_props["rest"] = "a" if info["restf"](res) == info["rest"] else "b"
+        same_id = plain([res.get("type"), res.get("id"), res.get("created_by_ref")]) == info["ident"]
+        pv = v if pkind != "obj" else "2.1" if "spec_version" in res._properties else "2.0"
+    t = compress_times(times.values())
+    pre = {"v": v, "kind": info["kind"], "created": t[times["created"]], "modified": t[times["modified"]], "hasmod": info["hasmod"], "revoked": info["revoked"],
+           "props": info["pre_props"]}
+    opk = "revoke" if kind == "revoke" else "newmod" if "m" in times else "new"
+    line = {"pre": pre, "ok": ok, "exc": exc, "orig_unchanged": IV.snapshot(data) == info["snap"], "type": str(data.get("type")), "via": "repository test",
+            "now_known": False, "changed": sorted(slot), "lenient_refusal": True}
+    if ok:
+        line["post"] = {"v": pv, "kind": pkind, "created": t[times["post_created"]], "modified": t[times["post_modified"]], "hasmod": True,
+                        "revoked": bool(res.get("revoked")), "props": post_props}
+        line.update(same_id=same_id, ser_pre=t[times["ser_pre"]], ser_post=t[times["ser_post"]])
+        now = t[times["post_modified"]]
+    else:
+        line.update(post=pre, same_id=True, ser_pre=t[times["ser_pre"]], ser_post=t[times["ser_pre"]])
+        now = pre["modified"] + 5000
+    line["op"] = {"k": opk, "ch": [[n, val] for n, val in sorted(info["ch"].items())], "now": now, "m": t[times["m"]] if "m" in times else 0}
+    return line
+
+
 # ------------------------------------------------------------------------------------------------ installation
 def install():
     import stix2
@@ -334,6 +501,9 @@ def install():
             wrap_function(getattr(scales, fn), confidence_recorder(fn))
     if "canonjson" in which:
         wrap_function(CZ.canonicalize, canon_recorder)
+    if "versioning" in which:
+        wrap_function(stix2.versioning.new_version, versioning_recorder("new"))
+        wrap_function(stix2.versioning.revoke, versioning_recorder("revoke"))
     if "frame" in which:
         for mod, names in ((stix2.parsing, ["parse", "dict_to_stix2", "parse_observable"]),
                            (stix2.versioning, ["new_version", "revoke", "remove_custom_stix"]),
